@@ -43,6 +43,14 @@ CLAIMS = {
                 'the 2 MiB stack claim is witnessed, not proved.',
         'design_ref': 'DESIGN.md §6 C08',
     },
+    'C15': {
+        'text': 'C15_interleave: for any family of iterators and any schedule of next() calls, what instance i returns is exactly what it returns alone (frame theorem over the '
+                'model, whose next is a function of its own state); C15_no_shared_state: the translator finds no static / thread_local / interior-mutable / unsafe item in the '
+                'crate on this run. PARTIAL: OS thread schedules are not modelled; Send + Sync is asserted at compile time in the harness; interleaved and threaded runs of the real '
+                'crate are compared with solo runs.',
+        'note': 'Lean kernel; translator audit; Rust type system; dependencies\' internals outside the model.',
+        'design_ref': 'DESIGN.md §6 C15',
+    },
     'C07': {
         'text': 'Theorem C07: for seven distinct cards the category given by the interval arms read from the source equals the rule-book category of the strongest '
                 'five-card hand (C07_intervals proved symbolically for all indexes 1..7462; combined with C01 and the numbering theorem).',
